@@ -688,16 +688,16 @@ impl Check for C02 {
                                 out.label("unspecified");
                                 continue;
                             }
-                            out.mismatch(
+                            out.mismatch_any(
                                 ctx,
-                                &format!("c02_schema_valid_validator_rejects{}", feature_suffix_used(&t.env, d, t.used.contains_key("exclude"))),
+                                &sigs_for(&format!("c02_schema_valid_validator_rejects{}", feature_suffix_used(&t.env, d, false)), "c02_schema_valid_validator_rejects", &t.env, d, t.used.contains_key("exclude")),
                                 format!("{} [{}]: document {} is valid against the emitted schema but validate() rejects it", name, mode, doc),
                                 detail(json!({"doc": doc, "source": src, "reference_open": format!("{:?}", mo)})),
                             );
                         } else if got == Some(true) && mo == Tri::Yes && ms == Tri::No {
-                            out.mismatch(
+                            out.mismatch_any(
                                 ctx,
-                                &format!("c02_schema_allows_undeclared_key{}", feature_suffix_used(&t.env, d, t.used.contains_key("exclude"))),
+                                &sigs_for(&format!("c02_schema_allows_undeclared_key{}", feature_suffix_used(&t.env, d, false)), "c02_schema_allows_undeclared_key", &t.env, d, t.used.contains_key("exclude")),
                                 format!("{} [{}]: document {} is valid against the emitted schema but carries a key the type does not declare", name, mode, doc),
                                 detail(json!({"doc": doc, "source": src})),
                             );
@@ -711,17 +711,19 @@ impl Check for C02 {
                         // each, so keys declared by one member are rejected by the others.  Decided by repairing
                         // exactly that in the emitted schema and judging the document again.
                         let repaired = repair_unmerged_allof(root, root);
-                        let mut sig = format!("c02_member_schema_invalid{}", feature_suffix_used(&t.env, d, t.used.contains_key("exclude")));
+                        let mut sig = format!("c02_member_schema_invalid{}", feature_suffix_used(&t.env, d, false));
+                        let mut through_engine = t.used.contains_key("exclude");
                         if &repaired != root {
                             if let Ok(j2) = ctx.judge(json!({"root": repaired, "docs": [doc], "patterns": table})) {
                                 if j2["valid"][0] == json!(true) {
                                     sig = "c02_member_schema_invalid:unmerged_allof_closed_members".to_string();
+                                    through_engine = false;
                                 }
                             }
                         }
-                        out.mismatch(
+                        out.mismatch_any(
                             ctx,
-                            &sig,
+                            &sigs_for(&sig, "c02_member_schema_invalid", &t.env, d, through_engine),
                             format!("{} [{}]: null-free exact member {} is not valid against the emitted schema", name, mode, doc),
                             detail(json!({"doc": doc, "source": src})),
                         );
@@ -805,16 +807,23 @@ fn strip_closed_b(v: &Value, root: &Value, ref_fuel: usize, budget: &std::cell::
     }
 }
 
+/// the plain signature, plus (for types that were re-materialised from the semantic engine) one per listed family of
+/// engine findings whose trigger the type contains
+fn sigs_for(plain: &str, base: &str, env: &Env, d: &D, through_engine: bool) -> Vec<String> {
+    let mut v = vec![plain.to_string()];
+    if through_engine {
+        v.extend(crate::csem::engine_family_sigs(base, env, d, None).into_iter().filter(|s| s.contains(":engine:")));
+    }
+    v
+}
+
 /// root-cause key: which type features are in play (so that a listed finding does not mask a different defect)
 pub fn feature_suffix(env: &Env, d: &D, _doc: &Value) -> String {
     feature_suffix_used(env, d, false)
 }
 /// `through_exclude`: the program spells part of the type with Exclude, i.e. the type was re-materialised from the
 /// semantic engine and inherits its listed findings (C05/C07: `{}` absorbing union members, records over never, ...)
-pub fn feature_suffix_used(env: &Env, d: &D, through_exclude: bool) -> String {
-    if through_exclude {
-        return ":program_uses_exclude".to_string();
-    }
+pub fn feature_suffix_used(env: &Env, d: &D, _through_exclude: bool) -> String {
     let mut f = vec![];
     if reaches(env, d, &mut |n| matches!(n, D::Inter(_))) {
         f.push("inter");
